@@ -58,22 +58,30 @@ class K:
         self.probe_only = probe_only
 
     def boxes(self, tier="quick"):
+        """split: (arg index, n) or a list of such pairs (product of the cuts)"""
         if not self.split:
             return [dict(self.bounds)] if self.bounds else [None]
-        idx, n = self.split
-        if isinstance(n, dict):
-            n = n.get(tier, n.get("thorough" if tier == "deep" else "quick", n.get("quick")))
-        lo, hi = self.bounds[idx]
-        span = hi - lo + 1
-        step = (span + n - 1) // n
-        out = []
-        a = lo
-        while a <= hi:
-            b = min(a + step - 1, hi)
-            bx = dict(self.bounds)
-            bx[idx] = (a, b)
-            out.append(bx)
-            a = b + 1
+        splits = self.split if isinstance(self.split, list) else [self.split]
+        out = [dict(self.bounds)]
+        for idx, n in splits:
+            if isinstance(n, dict):
+                n = n.get(tier, n.get("thorough" if tier == "deep" else "quick", n.get("quick")))
+            lo, hi = self.bounds[idx]
+            span = hi - lo + 1
+            step = (span + n - 1) // n
+            cuts = []
+            a = lo
+            while a <= hi:
+                b = min(a + step - 1, hi)
+                cuts.append((a, b))
+                a = b + 1
+            nxt = []
+            for bx in out:
+                for c in cuts:
+                    b2 = dict(bx)
+                    b2[idx] = c
+                    nxt.append(b2)
+            out = nxt
         return out
 
 
